@@ -28,6 +28,8 @@ def walk(toks, lo, hi, prefix, srcs, inserts):
             continue
         if it.kind not in ('fn', 'struct', 'enum'):
             continue
+        if any(t.text in ('external_body', 'external_type_specification') for t in toks[it.start:it.hstart]):
+            continue
         path = prefix + ['%s %s' % (it.kind, it.name)]
         if '//@SRC' in toks[it.start].trivia or '//@HOISTED' in toks[it.start].trivia:
             continue
